@@ -636,11 +636,47 @@ func newInstance(sig int, all bool, list []string) (*instance, error) {
 }
 
 // process sends one document through the processor and runs the monitors on it.
+// flipCtx is a request context whose Err() turns into context.Canceled after `after` calls (a caller
+// that gives up while the processor is half-way through the document).
+type flipCtx struct {
+	context.Context
+	n     atomic.Int64
+	after int64
+	once  sync.Once
+	done  chan struct{}
+}
+
+func (f *flipCtx) Err() error {
+	if f.n.Add(1) > f.after {
+		f.once.Do(func() { close(f.done) })
+		return context.Canceled
+	}
+	return nil
+}
+func (f *flipCtx) Done() <-chan struct{} { return f.done }
+
+// hostileCtx: every fourth document is submitted under a context that is already cancelled, every
+// fourth under one that is cancelled part-way. Whatever a processor does with such a context, what it
+// forwards must be obfuscated like everything else (refusing with an error and forwarding nothing is fine).
+func hostileCtx(doc int) (context.Context, string) {
+	switch doc % 4 {
+	case 1:
+		ctx, cancel := context.WithCancel(context.Background())
+		cancel()
+		return ctx, "cancelled-before-call"
+	case 3:
+		return &flipCtx{Context: context.Background(), after: int64(1 + doc%7), done: make(chan struct{})}, "cancelled-part-way"
+	}
+	return context.Background(), "live"
+}
+
 func (in *instance) process(c *vc.Case, g *gen.G, n int, doc int) {
 	w := &walker{t: in.table, all: in.all, listed: in.listed}
 	var pan any
 	var blankIn, blankOut []byte
 	var inJSON string
+	ctx, ctxKind := hostileCtx(doc + c.Idx)
+	c.Count("documents_under_context_"+ctxKind, 1)
 	func() {
 		defer func() { pan = recover() }()
 		switch in.sig {
@@ -651,7 +687,11 @@ func (in *instance) process(c *vc.Case, g *gen.G, n int, doc int) {
 			j, _ := (&ptrace.JSONMarshaler{}).MarshalTraces(orig)
 			inJSON = string(j)
 			in.st.got = nil
-			if err := in.tp.ConsumeTraces(context.Background(), td); err != nil {
+			if err := in.tp.ConsumeTraces(ctx, td); err != nil {
+				if ctxKind != "live" && len(in.st.got) == 0 {
+					c.Count("documents_refused_under_a_done_context", 1)
+					return
+				}
 				w.bad("processor returned an error", err.Error())
 				return
 			}
@@ -668,7 +708,11 @@ func (in *instance) process(c *vc.Case, g *gen.G, n int, doc int) {
 			j, _ := (&plog.JSONMarshaler{}).MarshalLogs(orig)
 			inJSON = string(j)
 			in.sl.got = nil
-			if err := in.lp.ConsumeLogs(context.Background(), ld); err != nil {
+			if err := in.lp.ConsumeLogs(ctx, ld); err != nil {
+				if ctxKind != "live" && len(in.sl.got) == 0 {
+					c.Count("documents_refused_under_a_done_context", 1)
+					return
+				}
 				w.bad("processor returned an error", err.Error())
 				return
 			}
@@ -685,7 +729,11 @@ func (in *instance) process(c *vc.Case, g *gen.G, n int, doc int) {
 			j, _ := (&pmetric.JSONMarshaler{}).MarshalMetrics(orig)
 			inJSON = string(j)
 			in.sm.got = nil
-			if err := in.mp.ConsumeMetrics(context.Background(), md); err != nil {
+			if err := in.mp.ConsumeMetrics(ctx, md); err != nil {
+				if ctxKind != "live" && len(in.sm.got) == 0 {
+					c.Count("documents_refused_under_a_done_context", 1)
+					return
+				}
 				w.bad("processor returned an error", err.Error())
 				return
 			}
@@ -697,7 +745,7 @@ func (in *instance) process(c *vc.Case, g *gen.G, n int, doc int) {
 			blankIn, blankOut = blankMetrics(orig), blankMetrics(in.sm.got[0])
 		}
 	}()
-	wit := map[string]any{"document_index": doc, "mode_encrypt_all": in.all, "listed_keys": fmt.Sprint(keysOf(in.listed)), "input_otlp_json": clip(inJSON, 20000)}
+	wit := map[string]any{"document_index": doc, "request_context": ctxKind, "mode_encrypt_all": in.all, "listed_keys": fmt.Sprint(keysOf(in.listed)), "input_otlp_json": clip(inJSON, 20000)}
 	if pan != nil {
 		c.Violation("obfuscation processor panicked", fmt.Sprint(pan), wit)
 		return
